@@ -8,7 +8,7 @@ from common import text
 RULE = ('K-out: small synthetic files written with EVERY output chunk size from the record length to file size + 1 '
         '(plus integral floats), with prior content of several sizes at the target path; the on-disk content after '
         'every physical write (flush-tap) is compared with the model\'s snapshot list. K-chunk-rule: accepted/rejected '
-        'output chunk sizes. K-in: real files with rows <= 12 written with input chunk 1..14 and None must be identical, '
+        'output chunk sizes. K-in: real files with rows <= 12 written with input chunk 1..14 and None must be identical, the same under a row window through structured / dict / HDF5 sources, '
         'also across output chunk sizes. Distinct by (case, chunk size).')
 ASSUMPTIONS = ["open(path, 'wb'/'ab') semantics are the OS's (trusted)", 'output_chunk_size=None/0 (a 4 GiB buffer) is exercised only in the thorough tier']
 PARTIAL = 'crash points are observed as the on-disk state after each physical write; a crash inside one OS write is below the model'
@@ -100,6 +100,29 @@ def run(ctx):
                     if not ref.startswith(s):
                         ctx.violation('flush-snapshot-is-not-a-prefix', {'file_seed': seed, 'input_chunk': ic, 'output_chunk': oc})
                         break
+    # the same through every source kind under a row window: the window start is absolute, the chunk start relative
+    from props import c11
+    import datagen
+    rngw = ctx.rng('window-chunks')
+    for k in range(3 if ctx.tier == 'quick' else 20):
+        rows = rngw.randrange(9, 14)
+        chans = [datagen.gen_channel(rngw, rows, 'W%d' % j, order='<', layout='C', cast=None) for j in range(rngw.randrange(1, 4))]
+        a = rngw.randrange(1, 4)
+        b = rngw.choice([None, rows - 1])
+        for kind in ('struct', 'dict', 'hdf5'):
+            refw = None
+            for ic in [None] + list(range(1, 12)):
+                dfw, dataw = c11.build(chans, kind, rngw, list(range(len(chans))))
+                o = c11.write(dfw, dataw, (a, b), ic, rows)
+                ctx.count('K-in-window', key=(k, kind, ic))
+                if o[0] != 'ok':
+                    ctx.violation('write-raises-for-accepted-chunk-size', {'kind': kind, 'rows': rows, 'window': [a, b], 'input_chunk': ic, 'impl': o})
+                    continue
+                if refw is None:
+                    refw = o[1]['file']
+                elif o[1]['file'] != refw:
+                    ctx.violation('file-depends-on-chunk-size', {'kind': kind, 'rows': rows, 'window': [a, b], 'input_chunk': ic,
+                                                                 'channels': [(c['dtype'], c['width']) for c in chans]})
     # model chunk ranges vs the generator's actual (start, stop) requests
     from dliswriter.utils.source_data_wrappers import DictDataWrapper
     import numpy as np
